@@ -143,9 +143,9 @@ Inductive rpoint : Set :=
 | RP_ndp_dnssl        (* layer_icmp6_options.go:506-560 RawOption copy + string(raw.Value[i:i+length]) *)
 (* handlers/dns_naming + layer_dns.go *)
 | RP_dns_name         (* dns.go:131,134 string(question.Name): DNSTable key and DNSEntry.Name *)
-| RP_dns_rr_name      (* layer_dns.go:199,209,221 string(name) *)
+| RP_dns_rr_name      (* layer_dns.go:199,209,221 string(name); :246 string(ptr) *)
 | RP_dns_cname        (* layer_dns.go:222 string(cname) *)
-| RP_dns_ip           (* layer_dns.go:197,207 netip.AddrFromSlice: value *)
+| RP_dns_ip           (* layer_dns.go:197,207,239 netip.AddrFromSlice: value *)
 | RP_mdns_name        (* mdns.go:340 string(q.Name.Data[:n]); mdns.go:416,430 hdr.Name.String() *)
 | RP_mdns_mac         (* mdns.go:417,431 CopyMAC(frame.SrcAddr.MAC) *)
 | RP_mdns_model       (* mdns.go:473 parseTXT(r.TXT): dnsmessage copies TXT strings *)
@@ -263,7 +263,7 @@ Record router := {
 Record dnsrec := { dr_key : bytes; dr_name : rv; dr_val : rv }.   (* key; RR Name; IP or CName *)
 Record dnsent := {
   d_key : bytes; d_name : rv;
-  d_a : list dnsrec; d_aaaa : list dnsrec; d_cname : list dnsrec
+  d_a : list dnsrec; d_aaaa : list dnsrec; d_cname : list dnsrec; d_ptr : list dnsrec
 }.
 (* mDNS response cache: key, and the retained (name, mac, model) of each entry *)
 Record mcache := { mc_key : rv; mc_kval : bytes; mc_ents : list (rv * rv * rv) }.
@@ -779,7 +779,8 @@ Definition ra_step (cx : ctx) (m : ramsg) (fhost : option bytes) (st : state) : 
 Inductive dnsrr : Type :=
 | RR_A (name : list loc) (off : nat)
 | RR_AAAA (name : list loc) (off : nat)
-| RR_CNAME (name : list loc) (cname : list loc).
+| RR_CNAME (name : list loc) (cname : list loc)
+| RR_PTR (ptr : list loc) (ip : bytes).   (* ip: the IPv4 address spelled by the owner name x.x.x.x.in-addr.arpa ([] = not such a name) *)
 
 Record dnsmsg := { dq_name : list loc; dq_rrs : list dnsrr }.
 
@@ -793,18 +794,25 @@ Definition dns_rr (cx : ctx) (acc : dnsent * bool) (rr : dnsrr) : dnsent * bool 
   | RR_A name off =>
       let '(l, u) := add_rec {| dr_key := sub (cx_frame cx) off 4; dr_name := retain RP_dns_rr_name cx (Fresh (join_labels cx name));
                                 dr_val := retain RP_dns_ip cx (FrameSl off 4) |} (d_a e) in
-      ({| d_key := d_key e; d_name := d_name e; d_a := l; d_aaaa := d_aaaa e; d_cname := d_cname e |}, snd acc || u)
+      ({| d_key := d_key e; d_name := d_name e; d_a := l; d_aaaa := d_aaaa e; d_cname := d_cname e; d_ptr := d_ptr e |}, snd acc || u)
   | RR_AAAA name off =>
       let '(l, u) := add_rec {| dr_key := sub (cx_frame cx) off 16; dr_name := retain RP_dns_rr_name cx (Fresh (join_labels cx name));
                                 dr_val := retain RP_dns_ip cx (FrameSl off 16) |} (d_aaaa e) in
-      ({| d_key := d_key e; d_name := d_name e; d_a := d_a e; d_aaaa := l; d_cname := d_cname e |}, snd acc || u)
+      ({| d_key := d_key e; d_name := d_name e; d_a := d_a e; d_aaaa := l; d_cname := d_cname e; d_ptr := d_ptr e |}, snd acc || u)
   | RR_CNAME name cname =>
       (* layer_dns.go case 5 (as repaired by commit 2518490): owner := string(name) is taken before the
          target is decoded into the same scratch buffer *)
       let n0 := join_labels cx name in
       let '(l, u) := add_rec {| dr_key := n0; dr_name := retain RP_dns_rr_name cx (Fresh n0);
                                 dr_val := retain RP_dns_cname cx (Fresh (join_labels cx cname)) |} (d_cname e) in
-      ({| d_key := d_key e; d_name := d_name e; d_a := d_a e; d_aaaa := d_aaaa e; d_cname := l |}, snd acc || u)
+      ({| d_key := d_key e; d_name := d_name e; d_a := d_a e; d_aaaa := d_aaaa e; d_cname := l; d_ptr := d_ptr e |}, snd acc || u)
+  | RR_PTR ptr ip =>
+      (* layer_dns.go case 12: the owner spells the address (parsed from text: a value); Name = string(ptr) *)
+      if is_nil ip then acc else
+      let p0 := join_labels cx ptr in
+      let '(l, u) := add_rec {| dr_key := p0; dr_name := retain RP_dns_rr_name cx (Fresh p0);
+                                dr_val := retain RP_dns_ip cx (Fresh ip) |} (d_ptr e) in
+      ({| d_key := d_key e; d_name := d_name e; d_a := d_a e; d_aaaa := d_aaaa e; d_cname := d_cname e; d_ptr := l |}, snd acc || u)
   end.
 
 (* DNSHandler.ProcessDNS *)
@@ -812,7 +820,7 @@ Definition dns_step (cx : ctx) (m : dnsmsg) (st : state) : state :=
   let key := join_labels cx (dq_name m) in
   let e0 := match find (fun e => beqb (d_key e) key) (st_dns st) with
             | Some e => e
-            | None => {| d_key := key; d_name := retain RP_dns_name cx (Fresh key); d_a := []; d_aaaa := []; d_cname := [] |}
+            | None => {| d_key := key; d_name := retain RP_dns_name cx (Fresh key); d_a := []; d_aaaa := []; d_cname := []; d_ptr := [] |}
             end in
   let '(e1, updated) := fold_left (dns_rr cx) (dq_rrs m) (e0, false) in
   if updated then set_dns st (remove_first (fun e => beqb (d_key e) key) (st_dns st) ++ [e1]) else st.
@@ -901,7 +909,8 @@ Definition show_rec (cx : ctx) (r : dnsrec) : string := hx (rd cx (dr_val r)) ++
 Definition rec_sorted (l : list dnsrec) : list dnsrec := sort_by (fun a b => bleb (dr_key a) (dr_key b)) l.
 Definition show_dns (cx : ctx) (e : dnsent) : string :=
   hx (rd cx (d_name e)) ++ "{" ++ join "+" (map (show_rec cx) (rec_sorted (d_a e))) ++ "/"
-  ++ join "+" (map (show_rec cx) (rec_sorted (d_aaaa e))) ++ "/" ++ join "+" (map (show_rec cx) (rec_sorted (d_cname e))) ++ "}".
+  ++ join "+" (map (show_rec cx) (rec_sorted (d_aaaa e))) ++ "/" ++ join "+" (map (show_rec cx) (rec_sorted (d_cname e)))
+  ++ "/" ++ join "+" (map (show_rec cx) (rec_sorted (d_ptr e))) ++ "}".
 
 Definition dump (s : store) (st : state) : string :=
   let cx := nocx s in
@@ -1057,7 +1066,7 @@ Definition router_ok (r : router) : bool :=
   && forallb owned (r_dnssl r) && owned (r_route r).
 Definition rec_ok (r : dnsrec) : bool := owned (dr_name r) && owned (dr_val r).
 Definition dns_ok (e : dnsent) : bool :=
-  owned (d_name e) && forallb rec_ok (d_a e) && forallb rec_ok (d_aaaa e) && forallb rec_ok (d_cname e).
+  owned (d_name e) && forallb rec_ok (d_a e) && forallb rec_ok (d_aaaa e) && forallb rec_ok (d_cname e) && forallb rec_ok (d_ptr e).
 Definition mcache_ok (c : mcache) : bool :=
   owned (mc_key c) && forallb (fun x => owned (fst (fst x)) && owned (snd (fst x)) && owned (snd x)) (mc_ents c).
 Definition no_ref (st : state) : bool :=
